@@ -23,6 +23,9 @@ func genC04(t *rapid.T) c04Case {
 	}
 	if c.Cfg.Algo == "vegas" {
 		c.Cfg.NoLoad = rapid.SampledFrom([]string{"", "", "", "single", "expavg"}).Draw(t, "noload")
+		if rapid.IntRange(0, 2).Draw(t, "customfns") == 0 {
+			genVegasFns(t, &c.Cfg) // documented constructor options; the bounds are the update path's job, not the functions'
+		}
 	}
 	c.Samples = genSamples(t, c.Cfg, 400)
 	return c
@@ -78,6 +81,9 @@ func runC04(_ *testing.T, c c04Case) kit.Outcome {
 	}
 	if sawZero {
 		out.Labels = append(out.Labels, "rtt0")
+	}
+	if c.Cfg.VAlpha+c.Cfg.VBeta+c.Cfg.VThr+c.Cfg.VInc+c.Cfg.VDec != "" {
+		out.Labels = append(out.Labels, "vegas-custom-fns")
 	}
 	return out
 }
